@@ -4,7 +4,7 @@
 
 use std::{io::Write, time::Instant};
 
-use eyeball_verif::{common::*, runners_adp, runners_misc, runners_obs, runners_vec, Params};
+use eyeball_verif::{common::*, runners_adp, runners_misc, runners_obs, runners_thr, runners_vec, Params};
 use serde_json::{json, Value};
 
 struct Spec {
@@ -29,7 +29,7 @@ fn spec(id: &str) -> Option<Spec> {
             assumptions: BASE_ASSUME,
         },
         "C16" => Spec {
-            run: runners_obs::run_c16,
+            run: runners_thr::run_c16,
             level: "exploration",
             rule: "the C01/C02/C03 histories executed on the async-lock flavour with every future driven by a hand-rolled executor, judged by the same model and compared call by call with the sync run of the same history; plus randomised guard scripts (write guard held across subscriber polls; read guard held while writers wait) with their own oracle. Non-trivial = Ready and Pending polls both observed (histories), or the script ran to its end (scripts); distinct = hash of (flavour, history) / of the script log.",
             assumptions: BASE_ASSUME,
@@ -47,21 +47,21 @@ fn spec(id: &str) -> Option<Spec> {
             assumptions: BASE_ASSUME,
         },
         "C02" => Spec {
-            run: runners_obs::run_c02_seq,
+            run: runners_thr::run_c02,
             level: "exploration",
-            rule: "TEMP seq only",
+            rule: "(a) operation granularity: call histories on Observable/SharedObservable with up to 3 subscribers; after every single operation every subscriber whose last poll was Pending must have had that poll's waker woken if a notifying update or the close happened since; exhaustive short sequences + random. (b) threads: director scenarios (poll || set, poll || close, two polls || set, poll || drop-non-last-then-set, poll || set || close, for the unique and the shared observable) re-executed for every order in which the roles pass the pause points (incl. the clone of the supplied waker), verdict at join from poll results and wake flags only; plus free-running rounds (writers and subscribers on park/unpark executors, hook-injected yields) with the timing-free quiescence oracle. Non-trivial = a wake obligation was evaluated (a), a distinct executed schedule (b), a round with at least one Pending poll (free); distinct = hash of history / schedule trace / round.",
             assumptions: BASE_ASSUME,
         },
         "C03" => Spec {
-            run: runners_obs::run_c03_seq,
+            run: runners_thr::run_c03,
             level: "exploration",
-            rule: "TEMP seq only",
+            rule: "(a) histories of clone / drop / downgrade / upgrade / weak clone / into_shared / subscribe / set / poll against an owner-count model: poll is None iff no owner exists (also after reset, repeatedly), upgrade succeeds iff an owner exists, get/read return the last value after the end; exhaustive short sequences + random. (b) director scenarios: two and three threads dropping the last clones, last drop || upgrade (then set through the upgraded handle), drop || upgrade || poll - every order at sdrop:enter, sdrop:decided, upgrade:between, close:*, poll:*; verdict at join: every subscriber ended iff no handle is left. (c) free-running rounds. Non-trivial / distinct as C02.",
             assumptions: BASE_ASSUME,
         },
-        "C20" => Spec {
-            run: runners_misc::run_c20,
+        "C04" => Spec {
+            run: runners_thr::run_c04,
             level: "exploration",
-            rule: "bulk random histories of the vector engine (streams dropped mid-batch, while lagging, after the vector), the adapter engine (chains of 1-3 stages, both flavours) and the observable engine (both lock flavours, into_shared with and without subscribers); every element is a Tracked value whose construction, clones and drops are recorded in a table keyed by instance id: no double drop, no use after drop, table empty once everything of the history is gone. Non-trivial = the history published at least one message / diff / update; distinct = hash of the history. The same workload runs under Miri (leak check, tree borrows) and under ASan/LSan, see sanitizer_passes.",
+            rule: "recorded histories of 2-4 real threads (call/return ticks from one atomic clock, per-thread logs merged after join) checked offline: W1 register with unique values (set returns its predecessor => total order reconstructed exactly; real-time order, no stale/early reads, conditional setters store exactly when different, contended ids), W2 append-only list (no lost closure, per-thread and real-time order, every read a prefix within completed/invoked bounds, subscribers monotone and handed the final value), W3 read/write guards exclude complete operations; plus the lock-exclusion invariant evaluated by the director in every forced schedule. Non-trivial = a round that recorded events / a distinct schedule; distinct = hash of (workload, round seed, event count) / schedule trace.",
             assumptions: BASE_ASSUME,
         },
         "C05" => Spec {
@@ -154,6 +154,7 @@ fn main() {
     let mut evidence: Option<String> = None;
     let mut replay: Option<String> = None;
     let mut known_path = "/verif/known-findings.txt".to_string();
+    let mut part = "all".to_string();
     let mut replay_dir = "/verif/replays".to_string();
     let mut i = 2;
     while i < args.len() {
@@ -167,6 +168,7 @@ fn main() {
             "--evidence" => evidence = Some(v),
             "--replay" => replay = Some(v),
             "--known" => known_path = v,
+            "--part" => part = v,
             "--replay-dir" => replay_dir = v,
             _ => {
                 eprintln!("unknown argument {a}");
@@ -186,6 +188,7 @@ fn main() {
         replay: None,
         scale,
         known: Known::load(&known_path),
+        part,
     };
     if let Some(path) = &replay {
         let txt = std::fs::read_to_string(path).expect("cannot read replay file");
